@@ -189,6 +189,46 @@ def unit_handler(ctx):
         ctx.oblige(f"edge_case_handling.EdgeCaseHandler.handle_empty_list_std/post#p{pi}", p.pc, (p.value.idx == std) if ok else z3.BoolVal(False), func=EC + "EdgeCaseHandler.handle_empty_list_std")
 
 
+def unit_handler_independence(ctx):
+    """What a handler prescribes is fixed by its own construction: handlers built afterwards (with other configurations, or the
+    default one) do not change it.  (Two handlers must not share their table, e.g. through a module-level default that is updated.)"""
+    eng = ctx.engine()
+    cfgA, cfgB = mk_cfg(), mk_cfg("B")
+    stdA, stdB = z3.Int("cfg_std"), z3.Int("cfgB_std")
+    tp, npred, nref = z3.Ints("tp npred nref")
+    fn = EC + "EdgeCaseHandler.__init__"
+
+    def mk(e):
+        hA = mk_handler(e, ["IOU"], {"IOU": cfgA}, stdA)
+        hD = e.call(e.resolve(EC + "EdgeCaseHandler"), [], {})
+        mk_handler(e, ["IOU", "DSC"], {"IOU": cfgB, "DSC": cfgB}, stdB)
+        e.call(e.resolve(EC + "EdgeCaseHandler"), [], {})
+        e.assume(wrap(z3.And(tp == 0, npred >= 0, nref >= 0)))
+        return [hA, hD], {}
+
+    def target(hA, hD):
+        a = eng.call(eng.getattr(hA, "handle_zero_tp"), [metric(eng, "IOU"), SymInt(tp), SymInt(npred), SymInt(nref)], {})
+        d = eng.call(eng.getattr(hD, "handle_zero_tp"), [metric(eng, "DSC"), SymInt(tp), SymInt(npred), SymInt(nref)], {})
+        return a, d
+    paths = eng.run(target, mk)
+    ctx.expect("handler independence: several scenario paths", len([p for p in paths if p.kind == "return"]) >= 2)
+    nm = "edge_case_handling.EdgeCaseHandler.__init__[then other handlers are built]"
+    for pi, p in enumerate(paths):
+        if p.kind != "return":
+            ctx.oblige(f"{nm}/no-exception({p.exc.name() if p.exc else p.kind})#p{pi}", p.pc, z3.BoolVal(False), func=fn, replay="c08.handlers")
+            continue
+        a, d = p.value
+        if pi == 0:
+            ctx.canary(f"{nm}#p{pi}", p.pc, func=fn)
+        ctx.oblige(f"{nm}/post(an explicitly configured handler still prescribes its own configuration)#p{pi}", p.pc,
+                   z3.And(z3.BoolVal(a[0] is True), cfg_goal(cfgA, tp, npred, nref, a[1])), func=fn, replay="c08.handlers")
+        conds = scenario_conds(tp, npred, nref)
+        dv = idx_of_value(d[1])
+        ctx.oblige(f"{nm}/post(a default handler still prescribes the library defaults: DSC nan without instances, else 0)#p{pi}", p.pc,
+                   z3.And(z3.BoolVal(d[0] is True and dv is not None), z3.If(conds["NO_INSTANCES"], z3.BoolVal(dv == ECR_ORDER.index("NAN")), z3.BoolVal(dv == ECR_ORDER.index("ZERO")))),
+                   func=fn, replay="c08.handlers")
+
+
 def unit_result(ctx, mname):
     """PanopticaResult built with tp == 0 and empty lists: aggregate = handler
     value for the scenario, std = empty-list value, counts, no exception."""
@@ -230,6 +270,43 @@ def unit_result(ctx, mname):
             z3.BoolVal(v["all"] == []),
         )
         ctx.oblige(f"{nm}/post({attr}=handler value, {attr}_std=empty-list value, tp=0, fp=n_pred, fn=n_ref)#p{pi}", p.pc, g, func=fn, replay="c08.result", info=info)
+
+
+MULTI_CFG = {"RVD": (0, 1, 2, 3), "ASSD": (1, 2, 3, 4), "IOU": (2, 3, 4, 0), "DSC": (3, 4, 0, 1), "clDSC": (4, 0, 1, 2)}
+MULTI_ORDERS = [["RVD", "ASSD", "IOU", "DSC"], ["ASSD", "DSC"], ["DSC", "IOU", "ASSD", "RVD", "clDSC"], ["clDSC", "RVD", "DSC"]]
+
+
+def unit_result_multi(ctx, order):
+    """Several list metrics, given in an arbitrary order and each with its own (pairwise different) configuration: with tp == 0 every
+    aggregate is the value ITS OWN metric's configuration prescribes - whatever order the metrics were listed in."""
+    eng = ctx.engine()
+    tp, npred, nref = z3.Ints("tp npred nref")
+    cfgs = {m: {sc: z3.IntVal(MULTI_CFG[m][k]) for k, sc in enumerate(SCENARIOS)} for m in order}
+
+    def mk(e):
+        h = mk_handler(e, order, cfgs, z3.IntVal(1))
+        e.assume(wrap(z3.And(tp == 0, npred >= 0, nref >= 0)))
+        res = e.call(e.resolve(PR + "PanopticaResult"), [], dict(
+            reference_arr=None, prediction_arr=None, num_pred_instances=SymInt(npred), num_ref_instances=SymInt(nref),
+            tp=SymInt(tp), list_metrics={metric(e, m): [] for m in order}, edge_case_handler=h))
+        return [res], {}
+
+    def target(res):
+        return {m: eng.getattr(res, SQ_ATTR[m]) for m in order}
+    paths = eng.run(target, mk)
+    fn = PR + "PanopticaResult.__init__"
+    tag = ",".join(order)
+    ctx.expect(f"result[{tag}]: the four scenarios explored", len(paths) >= 4)
+    info = {"order": tag, "prefer": ["(<= npred 3)", "(<= nref 3)"]}
+    for pi, p in enumerate(paths):
+        nm = f"panoptica_result.PanopticaResult[metrics listed as {tag},tp=0]"
+        if p.kind != "return":
+            ctx.oblige(f"{nm}/completes-without-raising({p.exc.name() if p.exc else p.kind})#p{pi}", p.pc, z3.BoolVal(False), func=fn, replay="c08.result_multi", info=info)
+            continue
+        if pi == 0:
+            ctx.canary(f"{nm}#p{pi}", p.pc, func=fn)
+        ctx.oblige(f"{nm}/post(every aggregate is its own metric's handler value)#p{pi}", p.pc,
+                   z3.And(*[cfg_goal(cfgs[m], tp, npred, nref, p.value[m]) for m in order]), func=fn, replay="c08.result_multi", info=info)
 
 
 def unit_no_influence(ctx, mname):
@@ -321,6 +398,9 @@ def build(ctx):
     ctx.unit("MetricZeroTPEdgeCaseHandling.__init__", lambda: unit_mztp_init(ctx))
     ctx.unit("MetricZeroTPEdgeCaseHandling.__call__", lambda: unit_mztp_call(ctx))
     ctx.unit("EdgeCaseHandler", lambda: unit_handler(ctx))
+    ctx.unit("handler independence", lambda: unit_handler_independence(ctx))
+    for order in MULTI_ORDERS:
+        ctx.unit(f"result[{','.join(order)}]", lambda order=order: unit_result_multi(ctx, order))
     for m in ALL_METRICS:
         ctx.unit(f"PanopticaResult[{m},tp=0]", lambda m=m: unit_result(ctx, m))
         ctx.unit(f"PanopticaResult[{m},tp>0]", lambda m=m: unit_no_influence(ctx, m))
@@ -342,6 +422,12 @@ def concretise(ctx, o, r):
     gi = lambda k, d=0: model_int(m.get(k, d))
     cfg = {s: max(0, min(4, gi(f"cfg_{s}"))) for s in SCENARIOS}
     base = {"cfg": cfg, "std": max(0, min(4, gi("cfg_std"))), "tp": gi("tp"), "npred": max(0, gi("npred")), "nref": max(0, gi("nref"))}
+    if o.replay == "c08.result_multi":
+        return {"order": o.info["order"].split(","), "npred": max(0, gi("npred")), "nref": max(0, gi("nref"))}
+    if o.replay == "c08.handlers":
+        base["cfgB"] = {s: max(0, min(4, gi(f"cfgB_{s}"))) for s in SCENARIOS}
+        base["stdB"] = max(0, min(4, gi("cfgB_std")))
+        base["tp"] = 0
     if o.replay == "c08.result":
         base["metric"] = o.info.get("metric", "IOU")
     return base
